@@ -192,9 +192,59 @@ void text_scaled(sink& out, guarded_buffer& gb, std::uint64_t salt)
 
 // integers (built-in, 128-bit, wrappers): every base in the list
 template<class T>
+void text_integer_vals(sink& out, guarded_buffer& gb, std::vector<T> const& vs);
+
+template<class T>
 void text_integer(sink& out, guarded_buffer& gb, std::uint64_t salt)
 {
-    auto vs = text_values<T>(salt);
+    text_integer_vals<T>(out, gb, text_values<T>(salt));
+}
+
+// wide_integer beyond 128 bits: powers of ten and their neighbours (digit-count boundaries), limb-structured and random
+// values, both extremes (the value logged is read back from the object's limbs)
+template<class W>
+void text_wide(sink& out, guarded_buffer& gb, std::uint64_t salt)
+{
+    constexpr int D = cnl::digits_v<W>;
+    constexpr bool S = cnl::numbers::signedness_v<W>;
+    std::vector<W> vs;
+    auto both = [&](W const& v) {
+        vs.push_back(v);
+        if constexpr (S) {
+            vs.push_back(W(-v));
+        }
+    };
+    both(make<W>(false, 0));
+    both(make<W>(false, 1));
+    both(make<W>(false, 9));
+    both(make<W>(false, 10));
+    W const ten = make<W>(false, 10);
+    W p = make<W>(false, 1);
+    for (int k = 1; (k + 1) * 3322 / 1000 + 1 < D; ++k) {
+        p = W(p * ten);
+        if (k % 7 == 0 || k == 19 || k == 20 || k == 38 || k == 39 || (k + 2) * 3322 / 1000 + 1 >= D) {
+            both(p);
+            both(W(p - make<W>(false, 1)));
+            both(W(p + make<W>(false, 1)));
+        }
+    }
+    rng r(salt);
+    for (int k = 0; k < (thorough() ? 40 : 8); ++k) {
+        W v = make<W>(false, (static_cast<u128>(r.g()) << 64) | r.g());
+        int sh = static_cast<int>(r.g() % static_cast<unsigned>(D > 130 ? D - 129 : 1));
+        v = W(v << sh);
+        v = W(v + make<W>(false, r.g()));
+        both(v);
+    }
+    vs.push_back(std::numeric_limits<W>::max());
+    vs.push_back(std::numeric_limits<W>::lowest());
+    vs.push_back(W(std::numeric_limits<W>::max() - make<W>(false, 1)));
+    text_integer_vals<W>(out, gb, vs);
+}
+
+template<class T>
+void text_integer_vals(sink& out, guarded_buffer& gb, std::vector<T> const& vs)
+{
     for (int base : {10, 2, 8, 16, 36}) {
         int need = static_cast<int>(sizeof(innermost_t<T>) * 8) + 2;       // enough for base 2 with sign
         int capacity = base == 10 ? cnl::_impl::to_chars_capacity<T>{}(10) : need;
